@@ -61,6 +61,8 @@ type TraditionalDnsConn struct {
 	// It can identify c is dead or buggy in some circumstances. e.g. Network is dropped
 	// and the sockets were still open because no fin or rst was received.
 	waitingResp atomic.Bool
+	// readDeadlineMu serializes the read deadline updates of exchange() and readLoop().
+	readDeadlineMu sync.Mutex
 }
 
 type TraditionalDnsConnOpts struct {
@@ -118,11 +120,11 @@ func (dc *TraditionalDnsConn) exchange(ctx context.Context, q []byte) (*[]byte, 
 	// If a query was sent, server should have a reply (even not for this query) in a short time.
 	// This indicates the connection is healthy. Otherwise, this connection might be dead.
 	// The Read deadline will be refreshed in DnsConn.readLoop() after every successful read.
-	// Note: There has a race condition in this SetReadDeadline() call and the one in
-	// readLoop(). It's not a big problem.
+	dc.readDeadlineMu.Lock()
 	if dc.waitingResp.CompareAndSwap(false, true) {
 		dc.c.SetReadDeadline(time.Now().Add(waitingReplyTimeout))
 	}
+	dc.readDeadlineMu.Unlock()
 
 	var resend <-chan time.Time
 	if !dc.isTcp {
@@ -188,7 +190,12 @@ func (dc *TraditionalDnsConn) readResp() (payload *[]byte, err error) {
 func (dc *TraditionalDnsConn) readLoop() {
 
 	for {
-		dc.c.SetReadDeadline(time.Now().Add(dc.idleTimeout))
+		// Do not overwrite the (shorter) waiting-reply deadline armed by exchange().
+		dc.readDeadlineMu.Lock()
+		if !dc.waitingResp.Load() {
+			dc.c.SetReadDeadline(time.Now().Add(dc.idleTimeout))
+		}
+		dc.readDeadlineMu.Unlock()
 		r, err := dc.readResp()
 		if err != nil {
 			dc.CloseWithErr(fmt.Errorf("read err, %w", err)) // abort this connection.
